@@ -12,7 +12,10 @@ package harness
 //   reg a n dur pay k | xfer a n b | ctrl a n b | ura a n c e p hrp:acct|- | det a n keep|k<i> clear
 //   sell a n|l id min sell | csell a n|l id | comp a n|l id | buy a n|l id offer [dst]
 //   offer a n|l id amt cont|- [dst] | cbo a oid | abo a oid min
-//   rollapp a c hrp l | alias a c l pay
+//   rollapp a c hrp l | alias a c l pay | xferra a c b   (x/rollapp MsgTransferOwnership)
+//   mig p>n,p>n   (MigrateChainIdsProposal through the real proposal handler)
+//   ualias c:l,..|- c:l,..|-   (UpdateAliasesProposal: add, remove)
+//   setp grace soDur minOffer inc   (MsgUpdateParams: price + misc params)
 //   v  (full state view)   own a | res p n h | rev hrp:acct c | bon n | bol l | bob a   (queries)
 
 import (
@@ -29,9 +32,11 @@ import (
 	sdkerrors "github.com/cosmos/cosmos-sdk/types/errors"
 	authtypes "github.com/cosmos/cosmos-sdk/x/auth/types"
 	govtypes "github.com/cosmos/cosmos-sdk/x/gov/types"
+	govv1beta1 "github.com/cosmos/cosmos-sdk/x/gov/types/v1beta1"
 	"github.com/dymensionxyz/gerr-cosmos/gerrc"
 
 	"github.com/dymensionxyz/dymension/v3/app/apptesting"
+	dymnsmodule "github.com/dymensionxyz/dymension/v3/x/dymns"
 	dymnskeeper "github.com/dymensionxyz/dymension/v3/x/dymns/keeper"
 	dymnstypes "github.com/dymensionxyz/dymension/v3/x/dymns/types"
 	rollapptypes "github.com/dymensionxyz/dymension/v3/x/rollapp/types"
@@ -48,8 +53,14 @@ var c17Errs = []ErrMap{
 	{gerrc.ErrAlreadyExists, "exists"},
 	{rollapptypes.ErrRollappExists, "exists"},
 	{gerrc.ErrInvalidArgument, "invalid"},
+	{govtypes.ErrInvalidProposalContent, "invalid"},
+	{rollapptypes.ErrUnknownRollappID, "notfound"},
 	{gerrc.ErrUnknown, "unknown"},
 }
+
+// c17HostLit: the model's id of a config chain-id that is the host chain-id written out literally
+// (Model/DymNS.lean `hostLit`); such a record can only come out of a chain-id migration
+const c17HostLit = 999
 
 // ---- encoders: model ids -> real strings -------------------------------------------------------
 
@@ -72,6 +83,10 @@ func c17Alias(l int) string {
 		return "dym"
 	case 1001:
 		return "cosmos"
+	case 1002:
+		return "inj"
+	case 1003:
+		return "jun"
 	}
 	return strings.Repeat("k", l%5+1) + c17Letters(l/5, 1)
 }
@@ -84,6 +99,10 @@ func c17Chain(c int) string {
 		return "cosmoshub-4"
 	case c == 101:
 		return "osmosis-1"
+	case c == 102:
+		return "injective-1"
+	case c == 103:
+		return "juno-1"
 	}
 	return fmt.Sprintf("rol%c_%d-1", 'a'+c, 1000+c)
 }
@@ -225,8 +244,10 @@ func (h *c17h) reset(f []string) string {
 	for i := 0; i < h.nL; i++ {
 		h.aliasID[c17Alias(i)] = i
 	}
-	h.aliasID[c17Alias(1000)], h.aliasID[c17Alias(1001)] = 1000, 1001
-	for _, c := range []int{0, 100, 101} {
+	for _, l := range []int{1000, 1001, 1002, 1003} {
+		h.aliasID[c17Alias(l)] = l
+	}
+	for _, c := range []int{0, 100, 101, 102, 103} {
 		h.chainID[c17Chain(c)] = c
 	}
 	h.hrpID[c17Hrp(0)], h.hrpID[c17Hrp(100)] = 0, 100
@@ -342,6 +363,8 @@ func (h *c17h) msgOf(f []string) sdk.Msg {
 				NativeDenom: rollapptypes.DenomMetadata{Display: "DEN", Base: "aden", Exponent: 18}},
 			Metadata: &rollapptypes.RollappMetadata{Website: "https://dymension.xyz", Description: "d", LogoUrl: "https://dymension.xyz/logo.png", Telegram: "https://t.me/rolly", X: "https://x.dymension.xyz"},
 		}
+	case "xferra":
+		return &rollapptypes.MsgTransferOwnership{CurrentOwner: a(1), RollappId: c17Chain(c17atoi(f[2])), NewOwner: a(3)}
 	case "alias":
 		return &dymnstypes.MsgRegisterAlias{Alias: c17Alias(c17atoi(f[3])), RollappId: c17Chain(c17atoi(f[2])), Owner: a(1), ConfirmPayment: c17Coin(f[4])}
 	}
@@ -436,6 +459,15 @@ func (h *c17h) cfgChain(c string) string {
 	return "?" + c
 }
 
+// cfgStored: the model's id of a chain-id as a config stores it: "" is 0 (the host chain), the host
+// chain-id written out literally is c17HostLit
+func (h *c17h) cfgStored(c string) string {
+	if c == c17Chain(0) {
+		return strconv.Itoa(c17HostLit)
+	}
+	return h.cfgChain(c)
+}
+
 func (h *c17h) pathID(p string) string {
 	for i, x := range c17Paths {
 		if x == p {
@@ -487,7 +519,7 @@ func (h *c17h) view() string {
 		}
 		var cf []string
 		for _, c := range d.Configs {
-			cf = append(cf, fmt.Sprintf("%s.%s=%s", h.cfgChain(c.ChainId), h.pathID(c.Path), h.decodeAddr(c.Value)))
+			cf = append(cf, fmt.Sprintf("%s.%s=%s", h.cfgStored(c.ChainId), h.pathID(c.Path), h.decodeAddr(c.Value)))
 		}
 		cfs := "-"
 		if len(cf) > 0 {
@@ -592,6 +624,26 @@ func (h *c17h) view() string {
 			fmt.Fprintf(&b, " l%d:%d", i, c)
 		}
 	}
+	fmt.Fprintf(&b, " pp=%d,%d,%s,%d ca=", int64(p.Misc.GracePeriodDuration.Seconds()), int64(p.Misc.SellOrderDuration.Seconds()),
+		p.Price.MinOfferPrice, p.Price.MinBidIncrementPercent)
+	for i, r := range p.Chains.AliasesOfChainIds {
+		if i > 0 {
+			b.WriteByte(';')
+		}
+		var al []string
+		for _, x := range r.Aliases {
+			if id, ok := h.aliasID[x]; ok {
+				al = append(al, strconv.Itoa(id))
+			} else {
+				al = append(al, "?"+x)
+			}
+		}
+		als := "-"
+		if len(al) > 0 {
+			als = strings.Join(al, ",")
+		}
+		fmt.Fprintf(&b, "%s:%s", h.cfgChain(r.ChainId), als)
+	}
 	return b.String()
 }
 
@@ -687,6 +739,49 @@ func (h *c17h) query(f []string) string {
 	return "bad-op"
 }
 
+func (h *c17h) errObs(err error) string {
+	obs := ErrClass(err, c17Errs)
+	if obs == "other" || obs == "panic" {
+		obs += ":" + strings.ReplaceAll(strings.ReplaceAll(err.Error(), "\n", " "), "\r", " ")
+		if len(obs) > 300 {
+			obs = obs[:300]
+		}
+	}
+	return obs
+}
+
+// c17Pairs parses "a>b,a>b" / "a:b,a:b" ("-" = none).
+func c17Pairs(t, sep string) [][2]int {
+	var out [][2]int
+	if t == "-" {
+		return out
+	}
+	for _, x := range strings.Split(t, ",") {
+		ab := strings.Split(x, sep)
+		out = append(out, [2]int{c17atoi(ab[0]), c17atoi(ab[1])})
+	}
+	return out
+}
+
+// govContent builds the real proposal content of a `mig` / `ualias` line.
+func (h *c17h) govContent(f []string) govv1beta1.Content {
+	if f[0] == "mig" {
+		var rep []dymnstypes.MigrateChainId
+		for _, p := range c17Pairs(f[1], ">") {
+			rep = append(rep, dymnstypes.MigrateChainId{PreviousChainId: c17Chain(p[0]), NewChainId: c17Chain(p[1])})
+		}
+		return &dymnstypes.MigrateChainIdsProposal{Title: "migrate", Description: "migrate chain ids", Replacement: rep}
+	}
+	ua := func(t string) []dymnstypes.UpdateAlias {
+		var l []dymnstypes.UpdateAlias
+		for _, p := range c17Pairs(t, ":") {
+			l = append(l, dymnstypes.UpdateAlias{ChainId: c17Chain(p[0]), Alias: c17Alias(p[1])})
+		}
+		return l
+	}
+	return &dymnstypes.UpdateAliasesProposal{Title: "aliases", Description: "update aliases", Add: ua(f[1]), Remove: ua(f[2])}
+}
+
 // exec executes one op line on the real code and returns its canonical observation.
 func (h *c17h) exec(line string) string {
 	f := strings.Fields(line)
@@ -732,6 +827,21 @@ func (h *c17h) exec(line string) string {
 		if _, err := h.f.Deliver(msg); err != nil {
 			h.r.T.Fatalf("param update failed: %v", err)
 		}
+	case "mig", "ualias":
+		// the real proposal handler of x/dymns, inside a cache context written only on success (what
+		// the gov module's MsgExecLegacyContent does with a passed proposal)
+		content := h.govContent(f)
+		handler := dymnsmodule.NewDymNsProposalHandler(h.k)
+		err := h.f.Try(func(ctx sdk.Context) error { return handler(ctx, content) })
+		obs = h.errObs(err)
+	case "setp":
+		pp, mp := h.params().Price, h.params().Misc
+		pp.MinOfferPrice = bigs(f[3])[0]
+		pp.MinBidIncrementPercent = uint32(c17atoi(f[4]))
+		mp.GracePeriodDuration = time.Duration(c17atoi(f[1])) * time.Second
+		mp.SellOrderDuration = time.Duration(c17atoi(f[2])) * time.Second
+		_, err := h.f.Deliver(&dymnstypes.MsgUpdateParams{Authority: authtypes.NewModuleAddress(govtypes.ModuleName).String(), NewPriceParams: &pp, NewMiscParams: &mp})
+		obs = h.errObs(err)
 	default:
 		msg := h.msgOf(f)
 		if msg == nil {
